@@ -134,6 +134,8 @@ var c04TZPrograms = []string{
 
 var c04Instants = []time.Time{
 	time.Date(2021, 3, 4, 5, 6, 7, 89000000, time.UTC),
+	{},                                        // the zero time is an instant like any other
+	time.Time{}.In(time.FixedZone("", 19800)), // ... in any zone
 	time.Date(2021, 3, 4, 5, 6, 7, 89000000, time.FixedZone("", 3600)),
 	time.Date(2020, 2, 29, 23, 59, 59, 999000000, time.FixedZone("", -11*3600)),
 	time.Date(2019, 12, 31, 23, 59, 59, 0, time.FixedZone("", 5*3600+1800)),
@@ -258,7 +260,7 @@ func init() {
 
 	core.Register(&core.Check{
 		ID:          "C04",
-		Rule:        "schedules: preemption-bounded depth-first exploration (bound 2 quick / 3 thorough, iterated 0,1,2,...) of every interleaving of 2-3 threads at the scheduling points the instrumenter inserts at every function entry, loop iteration and package-level variable access of the current tree (controlled cooperative scheduler, executions run to completion, prefix replay checked), for 13 scenarios (shared compiled expression x shared resource for every node kind, custom functions incl. nested calls, Compile with AddFunction/WithExperimentalFuncs in parallel, a shared patch expression on two resources, 3 threads); per execution: each thread's observation equals its isolated observation, no write to a package-level variable, inputs unchanged. Compile histories: every sequence of length <=3 (quick) / <=4 (thorough) over a 13-call alphabet (plain, AddFunction fresh/again/built-in name/experimental name, WithExperimentalFuncs, Permissive, patch.Compile, Transform): the observable Compile state (probe programs + reflective table snapshot) never leaves the initial state and each call's outcome equals its outcome in the empty history. Evaluate histories: every sequence of length <=2 (quick) / <=3 (thorough) over 66 (expression, resource, options) evaluations, two of them over a caller-owned collection that the whole history shares on shared compiled expressions: each result equals the isolated result and earlier results are unchanged afterwards. Process histories: every rotation of a 170-odd element alphabet, one fresh process each, so that every ordered pair of calls occurs with the first before the second; each outcome must equal the outcome of that call as the first call of a fresh process (catches process-wide memo tables and caches keyed too coarsely). Clock: now()/today()/timeOfDay() programs x 12 override instants denote exactly the override; the whole date/time battery gives identical results under TZ in {UTC, Asia/Kolkata, America/St_Johns, Pacific/Chatham}. A free-running -race pass of the scenario bodies (a sample of OS schedules, labelled as such) can only add violations; non-trivial = distinct (history | schedule, observation vector)",
+		Rule:        "schedules: preemption-bounded depth-first exploration (bound 2 quick / 3 thorough, iterated 0,1,2,...) of every interleaving of 2-3 threads at the scheduling points the instrumenter inserts at every function entry, loop iteration and package-level variable access of the current tree (controlled cooperative scheduler, executions run to completion, prefix replay checked), for 13 scenarios (shared compiled expression x shared resource for every node kind, custom functions incl. nested calls, Compile with AddFunction/WithExperimentalFuncs in parallel, a shared patch expression on two resources, 3 threads); per execution: each thread's observation equals its isolated observation, no write to a package-level variable, inputs unchanged. Compile histories: every sequence of length <=3 (quick) / <=4 (thorough) over a 13-call alphabet (plain, AddFunction fresh/again/built-in name/experimental name, WithExperimentalFuncs, Permissive, patch.Compile, Transform): the observable Compile state (probe programs + reflective table snapshot) never leaves the initial state and each call's outcome equals its outcome in the empty history. Evaluate histories: every sequence of length <=2 (quick) / <=3 (thorough) over 66 (expression, resource, options) evaluations, two of them over a caller-owned collection that the whole history shares on shared compiled expressions: each result equals the isolated result and earlier results are unchanged afterwards. Process histories: every rotation of a 170-odd element alphabet, one fresh process each, so that every ordered pair of calls occurs with the first before the second; each outcome must equal the outcome of that call as the first call of a fresh process (catches process-wide memo tables and caches keyed too coarsely). Clock: now()/today()/timeOfDay() programs x 14 override instants (incl. the zero time) denote exactly the override; the whole date/time battery gives identical results under TZ in {UTC, Asia/Kolkata, America/St_Johns, Pacific/Chatham}. A free-running -race pass of the scenario bodies (a sample of OS schedules, labelled as such) can only add violations; non-trivial = distinct (history | schedule, observation vector)",
 		Assumptions: []string{"scheduling points are function entries, loop iterations and package-variable accesses; finer-grained unsynchronised accesses are only seen by the free-running -race pass", "more than 3 threads and more than 3 preemptions are not explored"},
 		Subs: func(tier string) []core.Sub {
 			histLen, evLen := 3, 2
@@ -368,7 +370,7 @@ func init() {
 						r.Sample(core.W{"rotation_start": al[i].name, "calls": len(al)})
 					}
 				}},
-				{Name: "clock", N: len(c04Instants), Note: "now()/today()/timeOfDay() programs x 12 override instants, and without override", Run: func(i int, r *core.Rec) {
+				{Name: "clock", N: len(c04Instants), Note: "now()/today()/timeOfDay() programs x 14 override instants (incl. the zero time), and without override", Run: func(i int, r *core.Rec) {
 					t := c04Instants[i]
 					ms := t.Truncate(time.Millisecond)
 					wantNow := ms.Format("2006-01-02T15:04:05.000Z07:00")
